@@ -276,14 +276,16 @@ class HTTP(BaseComponent):
 
             res = wrappers.Response(req, encoding=self._encoding)
 
-            self._clients[sock] = (req, res)
-
             rp = req.protocol
             sp = self.protocol
 
             if rp[0] != sp[0]:
-                # the major HTTP version differs
+                # the major HTTP version differs: the message is rejected,
+                # whatever else arrives for it must not find it pending
+                del self._buffers[sock]
                 return self.fire(httperror(req, res, 505))
+
+            self._clients[sock] = (req, res)
 
             res.protocol = 'HTTP/{:d}.{:d}'.format(*min(rp, sp))
             res.close = not parser.should_keep_alive()
